@@ -301,8 +301,10 @@ def install_lis_physrec_contracts(wellformed_files=True):
         if self._isLrStart and self.startOfLr != self.startPrPos:
             _breach('PhysRecRead._readHead', 'first PR of a logical record at %d but startOfLr=%d' % (self.startPrPos, self.startOfLr))
         _state(self, 'PhysRecRead._readHead')
-        if wellformed_files and _tiflen(self) and self.tif.tifType == 0:
-            if self.tif.tifNext != self.startPrPos + 12 + self.prLen:
+        if wellformed_files and _tiflen(self):
+            if self.tif.tifType != 0:
+                _breach('PhysRecRead._readHead', 'a physical record header was parsed at 0x%x after a TIF marker of type %r' % (self.stream.tell() - 4, self.tif.tifType))
+            elif self.tif.tifNext != self.startPrPos + 12 + self.prLen:
                 _breach('PhysRecRead._readHead', 'TIF next 0x%x but PR at 0x%x has length %d' % (self.tif.tifNext, self.startPrPos, self.prLen))
 
     # ---- _readTail
